@@ -71,6 +71,18 @@ def real_signature(f):
     return repr((norm(f.graph_dict), norm(f.out_dict), norm(f.in_dict), list(f.start_vertices)))
 
 
+def containers(f):
+    """ids of every mutable container reachable from the three views (two levels + label lists)."""
+    ids = set()
+    for d in (f.graph_dict, f.out_dict, f.in_dict):
+        ids.add(id(d))
+        for x in d.values():
+            ids.add(id(x))
+            if isinstance(x, dict):
+                ids.update(id(y) for y in x.values() if isinstance(y, (list, dict, set)))
+    return ids
+
+
 def same_edges(f, E, key, who, V=None):
     """The automaton f has exactly the labelled edges E (each once, in all three views) and,
     when V is given, exactly the vertices V."""
@@ -801,14 +813,32 @@ def case_history(hist):
         apply_op(st, op, v, retained)
         if v:
             break
-    sig = None
+    sig = shared = None
     if not v:
         sig = real_signature(st["f"])       # before the invariants query the automaton
+        # hidden state: a retained original that shares a container with the current automaton has
+        # different futures from an independent one, so such states must not be merged
+        cur = containers(st["f"])
+        shared = tuple(sorted({opn for (g, snap, opn, cls) in retained if g is not st["f"] and containers(g) & cur}))
         for (g, snap, opn, cls) in retained:
             v += unchanged(g, snap, opn, cls)
     if not v:
         v = state_invariants(st)
-    key = repr((st["m"].key(), st["s"], st["alphabet"], st["base"], sig))
+    if not v:
+        # the other direction: the caller goes on editing a retained original in place; the automaton
+        # reached by the history (a result of a non-in-place operation) must not follow
+        cur = snapshot(st["f"])
+        for (g, snap, opn, cls) in retained:
+            if g is st["f"]:
+                continue
+            g.recurrent(inplace=True)
+            for u in list(g.vertices())[:1]:
+                g.delete_vertex(u)
+            if snapshot(st["f"]) != cur:
+                v.append({"key": "result-follows-original/%s/%s" % (opn, cls),
+                          "msg": "editing the receiver of %s in place changed its result: %s -> %s" % (opn, cur, snapshot(st["f"]))})
+                break
+    key = repr((st["m"].key(), st["s"], st["alphabet"], st["base"], sig, shared))
     ops = [] if v else enabled_ops(st["m"], st["alphabet"], st["base"], st["s"])
     return {"v": v, "key": key, "ops": ops, "t": len(hist),
             "o": repr((st["m"].key(), st["cls"])), "nt": len(st["m"].E) > 0}
